@@ -92,17 +92,23 @@ def run (ctx):
     txt = norm(v)
     good = None; why = ''
     if isinstance(v, ast.BinOp) and isinstance(v.op, ast.Add) and isinstance(v.right, ast.Constant) and v.right.value == 1 and isinstance(v.left, ast.Name):
-      # i + 1 where i is the index just stored at
+      # X + 1: for every definition of X that reaches this return, X is the index of the slot written on the way here -
+      # either a reused slot (a store BUF[X] = ... between the definition and the return) or the slot an append creates
+      # (X = len(BUF) taken before the append)
       idx = v.left.id
-      st = [s for (k, s, n) in reuse if n is not None and g.dominates(n, rn) and _subscript_index(s) == idx]
-      good = bool(st); why = "returns %s after storing at slot [%s]" % (txt, idx)
-      d_ = q.single_def(alloc.node, idx)
-      if not good and d_ is not None and _is_len_of_buf(d_):
-        # count = len(list) taken BEFORE the append: the appended slot has index count, its id is count + 1
-        dn = [n for n in g.nodes if n.kind == 'stmt' and isinstance(n.ast, ast.Assign) and n.ast.value is d_]
-        ap = [n for (k, s, n) in grow if n is not None and k == 'call:append' and g.dominates(n, rn)]
-        good = bool(dn) and bool(ap) and all(g.dominates(dn[0], a_) and dn[0] not in g.reachable(a_) for a_ in ap)
-        why = "returns (length before the append) + 1 after appending"
+      IN, defn = q.reaching_defs(g, idx)
+      oks = []
+      for d in IN[rn]:
+        if d is g.entry: oks.append(False); continue
+        tt, dv, kind = defn[d]
+        after_d = g.reachable(d)
+        if kind == 'assign' and dv is not None and not isinstance(dv, tuple) and _is_len_of_buf(dv):
+          aps = [n for (k, s_, n) in grow if n is not None and k == 'call:append' and n in after_d and rn in g.reachable(n) and d not in g.reachable(n)]
+          oks.append(bool(aps) and not any(rn in g.reachable(d, avoid=aps) for _ in [0]))
+        else:
+          sts = [n for (k, s_, n) in reuse if n is not None and _subscript_index(s_) == idx and (n in after_d or n is d) and (rn in g.reachable(n))]
+          oks.append(bool(sts) and rn not in g.reachable(d, avoid=sts))
+      good = bool(oks) and all(oks); why = "returns %s where %s indexes the slot written on every path" % (txt, idx)
     elif _is_len_of_buf(v):
       ap = [s for (k, s, n) in grow if n is not None and k == 'call:append' and g.dominates(n, rn)]
       good = bool(ap); why = "returns len(list) right after append (index+1)"
@@ -137,7 +143,7 @@ def run (ctx):
       v = r.value
       if not (v is None or (isinstance(v, ast.Constant) and v.value is None)): continue
       rn = q.enclosing_stmt_node(g, r)
-      good = rn is not None and any(g.dominates(h, rn) for h in scan)
+      good = rn is not None and (any(g.dominates(h, rn) for h in scan) or any(f_ in ('None not in self.%s' % BUF,) for f_ in q.fact_strs(g, rn)))
       ctx.ob('R-ORDER', alloc, "a buffer is refused only after the free-slot scan", good,
              "`return None` is reached only after the scan" if good else
              "the allocator gives up (returns None) on a path that has not scanned for a free slot: once max_buffers packets "
@@ -146,7 +152,7 @@ def run (ctx):
     # growth only after the scan: the loop's for-node dominates the growth node
     loops = [h for (s, h, a) in g.loop_nodes]
     for k, s, n in grow:
-      good = any(g.dominates(h, n) for h in loops)
+      good = any(g.dominates(h, n) for h in loops) or (n is not None and ('None not in self.%s' % BUF) in q.fact_strs(g, n))
       ctx.ob('R-ORDER', alloc, "free slots are reused before the list grows", good,
              "growth happens only after the free-slot scan" if good else "list grows without first scanning for a free slot",
              (alloc.module, s), 'D2')
@@ -315,6 +321,9 @@ def _free_index (g, node, idx, store, depth=0):
     if kind == 'assign' and isinstance(v, ast.Name):
       if not _free_index(g, d, v, store, depth + 1): return False
       continue
+    if kind == 'assign' and isinstance(v, ast.Call) and call_name(v) == 'index' and isinstance(v.func.value, ast.Attribute) and v.func.value.attr == BUF \
+       and len(v.args) == 1 and isinstance(v.args[0], ast.Constant) and v.args[0].value is None:
+      continue                       # the index of the first None: free by construction
     return False
   return True
 
